@@ -38,6 +38,7 @@ fn undo_renames_in_facts(cx: &Ctx, mut f: Facts) -> Facts {
         let _ = sm::load(&cx.repo, rel);
     }
     let maps: Vec<(String, BTreeMap<String, String>)> = sm::FN_RENAMES.with(|r| r.borrow().iter().map(|(k, v)| (k.clone(), v.clone())).collect());
+    fold_new_helpers(&mut f);
     if maps.is_empty() {
         return f;
     }
@@ -74,6 +75,83 @@ fn undo_renames_in_facts(cx: &Ctx, mut f: Facts) -> Facts {
         }
     }
     f
+}
+
+/// A private function that is not in the reviewed decomposition (refdata/private_fns.json) and has exactly one
+/// caller is part of that caller (the source model splices it back, see inline.rs): its facts are attributed to
+/// the caller, so splitting a function in two neither creates nor removes sites, callers or cycles.
+fn fold_new_helpers(f: &mut Facts) {
+    let Some(verif) = std::env::var_os("VERIF_DIR") else { return };
+    let Ok(txt) = std::fs::read_to_string(std::path::Path::new(&verif).join("refdata/private_fns.json")) else { return };
+    let Ok(v) = serde_json::from_str::<serde_json::Value>(&txt) else { return };
+    let Some(obj) = v.as_object() else { return };
+    let reviewed: Vec<(String, BTreeSet<String>)> = obj.iter().map(|(rel, arr)| (rel.clone(), arr.as_array().map(|a| a.iter().filter_map(|r| r.get(1)?.as_str().map(|s| s.to_string())).collect()).unwrap_or_default())).collect();
+    let strip = |n: &str| -> String {
+        // `a::b::f::<T>::{closure#0}` -> `f`
+        let base = crate::rules::c03::fold_closures(n);
+        let base = regex::Regex::new(r"::<[^<>]*>$").unwrap().replace(&base, "").to_string();
+        base.rsplit("::").next().unwrap_or("").to_string()
+    };
+    for cf in f.crates.values_mut() {
+        for _round in 0..5 {
+            let mut map: BTreeMap<String, String> = BTreeMap::new();
+            for func in &cf.funcs {
+                if func.vis.starts_with("Public") || func.name.starts_with('<') || func.name.contains(" as ") || func.name.contains("{closure#") {
+                    continue;
+                }
+                let Some((_, names)) = reviewed.iter().find(|(rel, _)| func.file.ends_with(rel.as_str())) else { continue };
+                if names.contains(&strip(&func.name)) {
+                    continue;
+                }
+                let callers: BTreeSet<String> = cf.calls.iter().filter(|c| c.callee == func.name).map(|c| crate::rules::c03::fold_closures(&c.caller)).filter(|c| *c != func.name).collect();
+                if callers.len() == 1 {
+                    let g = callers.into_iter().next().unwrap();
+                    // do not fold into something that is itself being folded in this round
+                    if !map.contains_key(&g) {
+                        map.insert(func.name.clone(), g);
+                    }
+                }
+            }
+            if map.is_empty() {
+                break;
+            }
+            let fix = |n: &str| -> String {
+                for (from, to) in &map {
+                    if n == from {
+                        return to.clone();
+                    }
+                    if n.starts_with(from.as_str()) && n[from.len()..].starts_with("::{closure#") {
+                        return format!("{}{}", to, &n[from.len()..]);
+                    }
+                }
+                n.to_string()
+            };
+            cf.funcs.retain(|x| !map.contains_key(&x.name));
+            for x in cf.funcs.iter_mut() {
+                x.name = fix(&x.name);
+            }
+            // the calls from the one caller are the splice points, not calls any more (a call of the helper to itself
+            // stays and becomes a recursion of the caller)
+            cf.calls.retain(|c| !(map.contains_key(&c.callee) && crate::rules::c03::fold_closures(&c.caller) != c.callee));
+            for c in cf.calls.iter_mut() {
+                c.caller = fix(&c.caller);
+                c.callee = fix(&c.callee);
+            }
+            for a in cf.asserts.iter_mut() {
+                a.func = fix(&a.func);
+            }
+            for v in cf.valuses.iter_mut() {
+                v.func = fix(&v.func);
+                v.producer = fix(&v.producer);
+            }
+            for b in cf.binops.iter_mut() {
+                b.func = fix(&b.func);
+            }
+            for c in cf.casts.iter_mut() {
+                c.0 = fix(&c.0);
+            }
+        }
+    }
 }
 
 /// Thorough tier: the fact directories of the non-default feature configurations, as (label, facts).
